@@ -290,7 +290,27 @@ def parse_tie(ctx, case, tag, kind, text, shape, pvals, values, tuples, converte
     if len(text) > 400000:
         ctx.dist['%s-text-too-long-for-model-parser' % kind] += 1
         return
-    mo = lib.run_model(['c09parse %s %s %s' % (kind, ','.join(texts) or '_', ds(text))])[0]
+    import ast
+    for _ in range(6):
+        mo = lib.run_model(['c09parse %s %s %s' % (kind, ','.join(texts) or '_', ds(text))])[0]
+        if not mo.startswith('need '):
+            break
+        # texts the model parser hands to literal_eval that are not a repr of this message: ask the real literal_eval
+        ctx.dist['%s-parser-tie: literal_eval asked about a text that is no repr of the message' % kind] += 1
+        for t in mo[5:].split(','):
+            raw = unds(t)
+            try:
+                x = ast.literal_eval(raw)
+                if isinstance(x, tuple):
+                    tok(raw, '%s^%d' % (t, tok(repr(x[0]))))
+                else:
+                    k = tok(repr(x))
+                    if raw not in first:
+                        first[raw] = k
+                        texts.append('%s=%d' % (t, k))
+            except Exception:
+                first[raw] = -1
+                texts.append(t + '!')
     try:
         with lib.time_limit(120):
             back = converter(text)
